@@ -259,6 +259,13 @@ def random_oplists(pid, rng, n):
                     r["ps"] = [x for x in r["ps"] if x != r["p"]]
                     r["us"] = [x for x in r["us"] if x != r["u"]]
                 recs.insert(rng.randrange(len(recs) + 1), r)
+                if recs and rng.random() < 0.4:
+                    # a record holding only a LETTER-CASE variant of a clashing value (no clash by itself) next to the clash
+                    v = rng.choice(recs)
+                    cv = {"p": (v["p"].swapcase() if v["p"].swapcase() != v["p"] else v["p"] + "X"), "u": v["u"].swapcase() if v["u"].swapcase() != v["u"] else v["u"] + "X",
+                          "ps": [], "us": [], "pat": None}
+                    if all(cv["p"] not in (q["p"], *q["ps"]) and cv["u"] not in (q["u"], *q["us"]) for q in recs):
+                        recs.insert(rng.randrange(len(recs) + 1), cv)
             if rng.random() < 0.3 and recs:
                 bad = dict(rng.choice(recs))
                 if rng.random() < 0.5:
